@@ -987,6 +987,233 @@ fn mutation() -> impl Strategy<Value = Mutation> {
     ]
 }
 
+// ---------------------------------------------------------------------------------------------
+// client side, end to end: the request goes out through the real `DnsMultiplexer` configured
+// with the key (`with_signer`), the server's reply comes back through it unmodified or modified.
+// Whatever the multiplexer hands to the caller as Ok must be authentic per RFC 8945 5.3 (the
+// reference MAC over the request MAC and the received octets); the unmodified reply must arrive.
+
+#[derive(Clone, Debug, Serialize, Deserialize)]
+pub enum ReplyEdit {
+    None,
+    BitFlip(u32),
+    ByteSet(u32, u8),
+    /// TSIG RR cut off, ARCOUNT lowered
+    TsigRemoved,
+    /// the reply re-signed with another secret / for another request MAC
+    ResignedWrongSecret,
+    ResignedWrongRequestMac,
+    Trailing(u8),
+}
+
+#[derive(Clone, Debug, Serialize, Deserialize)]
+pub struct ClientCase {
+    pub update: bool,
+    pub alg: Alg,
+    pub edns: bool,
+    pub id: u16,
+    pub edit: ReplyEdit,
+}
+
+struct OneWay {
+    inbox: Arc<std::sync::Mutex<std::collections::VecDeque<Vec<u8>>>>,
+}
+
+impl futures_util::Stream for OneWay {
+    type Item = Result<hickory_proto::op::SerialMessage, hickory_net::NetError>;
+    fn poll_next(self: std::pin::Pin<&mut Self>, _cx: &mut std::task::Context<'_>) -> std::task::Poll<Option<Self::Item>> {
+        match self.inbox.lock().unwrap().pop_front() {
+            Some(b) => std::task::Poll::Ready(Some(Ok(hickory_proto::op::SerialMessage::new(b, src_addr())))),
+            None => std::task::Poll::Pending,
+        }
+    }
+}
+
+impl hickory_net::xfer::DnsClientStream for OneWay {
+    type Time = crate::sim::SimTime;
+    fn name_server_addr(&self) -> std::net::SocketAddr {
+        src_addr()
+    }
+}
+
+fn client_case(_t: Tier) -> impl Strategy<Value = ClientCase> {
+    let edit = prop_oneof![
+        3 => Just(ReplyEdit::None),
+        8 => any::<u32>().prop_map(ReplyEdit::BitFlip),
+        2 => (any::<u32>(), any::<u8>()).prop_map(|(p, v)| ReplyEdit::ByteSet(p, v)),
+        2 => Just(ReplyEdit::TsigRemoved),
+        1 => Just(ReplyEdit::ResignedWrongSecret),
+        1 => Just(ReplyEdit::ResignedWrongRequestMac),
+        1 => (1u8..8).prop_map(ReplyEdit::Trailing),
+    ];
+    (any::<bool>(), alg(), any::<bool>(), any::<u16>(), edit).prop_map(|(update, alg, edns, id, edit)| ClientCase { update, alg, edns, id, edit })
+}
+
+fn client_body(c: &ClientCase, rec: &mut Rec) -> CaseResult {
+    use hickory_net::xfer::{DnsMultiplexer, DnsRequestSender};
+    use hickory_proto::op::{DnsRequest, DnsRequestOptions};
+    let now = 1_700_000_000u64;
+    let _clock = VirtualClock::start(now);
+    let key = k("k1.keys.test.", S1, c.alg);
+    let kind = if c.update { Kind::Update } else { Kind::AxfrAllowSigned };
+
+    // the unsigned request, as base_request builds it
+    let origin = to_name(&updates::origin());
+    let mut m = if c.update {
+        let mut m = Message::new(c.id, MessageType::Query, OpCode::Update);
+        let mut q = Query::new(origin, RecordType::SOA);
+        q.set_query_class(DNSClass::IN);
+        m.add_query(q);
+        m.add_authority(Record::from_rdata(name_from_str("new.zone.test."), 300, RData::A(A::new(192, 0, 2, 77))));
+        m
+    } else {
+        let mut m = Message::new(c.id, MessageType::Query, OpCode::Query);
+        m.add_query(Query::new(origin, RecordType::AXFR));
+        m
+    };
+    if c.edns {
+        let mut e = Edns::new();
+        e.set_max_payload(1232);
+        m.set_edns(e);
+    }
+
+    // client: multiplexer with the key
+    let inbox = Arc::new(std::sync::Mutex::new(std::collections::VecDeque::new()));
+    let (handle, mut outbound) = BufDnsStreamHandle::new(src_addr());
+    let mut mux = DnsMultiplexer::new(OneWay { inbox: inbox.clone() }, handle)
+        .with_timeout(std::time::Duration::from_secs(5))
+        .with_signer(hickory_signer(&key, 300));
+    let waker = futures_util::task::noop_waker();
+    let mut cx = std::task::Context::from_waker(&waker);
+    let mut rx = mux.send_message(DnsRequest::new(m, DnsRequestOptions::default()));
+    let _ = mux.poll_next_unpin(&mut cx);
+    let Some(Some(sent)) = outbound.next().now_or_never() else {
+        vfail!("client-multiplexer-sent-nothing", "no request left the multiplexer");
+    };
+    let request = sent.into_parts().0;
+    let req_auth = tsig_ref::authorised_ref(&request, now, std::slice::from_ref(&key));
+    vensure!(
+        req_auth.verdict == AuthRef::Authorised,
+        "client-multiplexer-request-not-signed-per-rfc8945",
+        "reference says {:?} for the request the multiplexer signed: {}",
+        req_auth.verdict,
+        crate::core::hexser::to_hex(&request)
+    );
+    let req_mac = req_auth.tsig.as_ref().map(|t| t.mac.clone()).unwrap_or_default();
+
+    // server
+    let mut h = build_handler(&base_zone(), kind.policy()).map_err(|e| Fail::new("harness-init", e))?;
+    h.set_tsig_signers(vec![hickory_signer(&key, 300)]);
+    let h = Arc::new(h);
+    let mut catalog = Catalog::new();
+    catalog.upsert(h.origin().clone(), vec![h.clone()]);
+    let fd = VerifFrontDoor::new(catalog, Vec::<ipnet::IpNet>::new(), Vec::<ipnet::IpNet>::new());
+    let (tx, mut srx) = BufDnsStreamHandle::new(src_addr());
+    if let Err(p) = catch(|| block_on(fd.handle(request.clone(), src_addr(), Protocol::Tcp, tx))) {
+        return Err(panic_fail(&p));
+    }
+    let mut replies = Vec::new();
+    while let Some(Some(m)) = srx.next().now_or_never() {
+        replies.push(m.into_parts().0);
+    }
+    vensure!(replies.len() == 1, "harness-expects-one-reply-message", "{} reply messages", replies.len());
+    let genuine = replies.remove(0);
+    let r = split_reply(&genuine)?;
+
+    // the edit
+    let mut wire = genuine.clone();
+    let mut label = "none";
+    match &c.edit {
+        ReplyEdit::None => {}
+        ReplyEdit::BitFlip(p) => {
+            let bit = *p as usize % (wire.len() * 8);
+            wire[bit / 8] ^= 1 << (7 - bit % 8);
+            label = "bit-flip";
+        }
+        ReplyEdit::ByteSet(p, v) => {
+            let i = *p as usize % wire.len();
+            if wire[i] == *v {
+                wire[i] ^= 0xff;
+            } else {
+                wire[i] = *v;
+            }
+            label = "byte-set";
+        }
+        ReplyEdit::TsigRemoved => {
+            wire.truncate(r.tsig_start);
+            let ar = u16::from_be_bytes([wire[10], wire[11]]).saturating_sub(1);
+            wire[10..12].copy_from_slice(&ar.to_be_bytes());
+            label = "tsig-removed";
+        }
+        ReplyEdit::ResignedWrongSecret | ReplyEdit::ResignedWrongRequestMac => {
+            let Some(t) = &r.tsig else {
+                vfail!("reply-to-signed-request-not-signed", "reply {}", crate::core::hexser::to_hex(&genuine));
+            };
+            let (secret, rmac): (&[u8], Vec<u8>) = if matches!(c.edit, ReplyEdit::ResignedWrongSecret) { (SX, req_mac.clone()) } else { (S1, req_mac.iter().map(|b| b ^ 0x55).collect()) };
+            let Ok(p) = tsig_ref::parse(&genuine) else { vfail!("harness-reply-unparseable", "{}", crate::core::hexser::to_hex(&genuine)) };
+            let rr = p.rrs.last().unwrap();
+            let d = tsig_ref::response_digest(&rmac, &genuine, rr.start, t);
+            let mac = tsig_ref::mac(key.alg, secret, &d);
+            // the MAC field sits after: name, type(2) class(2) ttl(4) rdlen(2), alg name, time(6) fudge(2) macsize(2)
+            let pos = wire.len() - (t.mac.len() + 2 + 2 + 2 + t.other.len());
+            if wire[pos..pos + mac.len()] == t.mac[..] {
+                wire[pos..pos + mac.len()].copy_from_slice(&mac);
+            } else {
+                rec.discard("harness-could-not-locate-the-mac-field");
+                return Ok(());
+            }
+            label = "re-signed";
+        }
+        ReplyEdit::Trailing(n) => {
+            wire.extend(std::iter::repeat(0xAB).take(*n as usize));
+            label = "trailing-octets";
+        }
+    }
+    rec.class(format!("reply-edit={label}"));
+    rec.class(format!("kind={kind:?}"));
+    let authentic = reply_authentic_ref(&wire, &req_mac, &key);
+    let same_id = wire.len() >= 2 && wire[..2] == genuine[..2];
+    rec.class(if authentic { "reference=authentic" } else { "reference=not-authentic" });
+
+    inbox.lock().unwrap().push_back(wire.clone());
+    let _ = mux.poll_next_unpin(&mut cx);
+    let mut delivered: Vec<Result<Vec<u8>, String>> = Vec::new();
+    for _ in 0..8 {
+        match rx.poll_next_unpin(&mut cx) {
+            std::task::Poll::Ready(Some(Ok(resp))) => delivered.push(Ok(resp.as_buffer().to_vec())),
+            std::task::Poll::Ready(Some(Err(e))) => delivered.push(Err(e.to_string())),
+            _ => break,
+        }
+    }
+    rec.nontrivial();
+    let ctx = || format!("{kind:?} {:?} edit {:?}: genuine reply {} delivered as {} -> {:?}", c.alg, c.edit, crate::core::hexser::to_hex(&genuine), crate::core::hexser::to_hex(&wire), delivered.iter().map(|d| d.as_ref().map(|b| b.len()).map_err(|e| e.clone())).collect::<Vec<_>>());
+    for d in &delivered {
+        if let Ok(b) = d {
+            vensure!(
+                reply_authentic_ref(b, &req_mac, &key),
+                "client-multiplexer-delivers-unauthentic-reply",
+                "the caller received a reply that is not authentic per RFC 8945 5.3; {}",
+                ctx()
+            );
+        }
+    }
+    // completeness is claimed for the reply as the server sent it; a modified reply that happens
+    // to stay authentic by the letter of RFC 8945 (case of a name, TSIG class / TTL) may be refused
+    let _ = same_id;
+    if matches!(c.edit, ReplyEdit::None) {
+        vensure!(authentic, "reply-mac-differs-from-rfc8945", "the server's reply is not authentic per the reference; {}", ctx());
+        vensure!(
+            delivered.iter().any(|d| d.is_ok()),
+            "client-multiplexer-withholds-the-genuine-reply",
+            "the unmodified reply did not reach the caller; {}",
+            ctx()
+        );
+    } else if authentic {
+        rec.class(if delivered.iter().any(|d| d.is_ok()) { "edited-but-authentic:delivered" } else { "edited-but-authentic:refused" });
+    }
+    Ok(())
+}
+
 fn any_case(_t: Tier) -> impl Strategy<Value = Case> {
     (kind(), keyset(), alg(), time_fudge(), clock(), mutation(), any::<u16>(), any::<bool>()).prop_map(|(kind, keyset, alg, (t, fudge), clock, mutation, id, edns)| Case {
         kind,
@@ -1054,6 +1281,7 @@ pub fn check() -> Option<Check> {
     let mutations = prop("request_mutations", 160_000, 2_000_000, any_case, body);
     let complete = prop("unmodified_requests", 12_000, 100_000, unmodified_case, body);
     let configured = prop("configured_from_files", 12_000, 100_000, configured_case, body);
+    let client = prop("client_multiplexer_replies", 40_000, 1_000_000, client_case, client_body);
     // every single-bit flip of the whole request, for each kind x algorithm (EDNS on for SHA-256)
     let flips = enumerate(
         "every_request_bit_flip",
@@ -1096,13 +1324,13 @@ pub fn check() -> Option<Check> {
     Some(Check {
         id: "C13",
         level: "exploration",
-        rule: "requests built and TSIG-signed by hickory's client (UPDATE with/without prerequisite; AXFR under Deny/AllowAll/AllowSigned; HMAC-SHA256/384/512; with/without EDNS; key sets: none, one, two, same name/other secret, same name twice, other name/same secret, other algorithm; Time Signed normal, < fudge, around 2^32; fudge 0, 1, 300, 65535) x server clock {t-fudge-1, t-fudge, inside, t, t+fudge, t+fudge+1, far} x mutation {bit flip, byte set, section-count set/shift, TSIG field edit with original or recomputed MAC (key name, algorithm, time, fudge, MAC truncated/extended/flipped, original ID, error, other data, class, TTL), TSIG removed/duplicated/not last, trailing octets, header ID, re-signed by the reference signer}; every_request_bit_flip enumerates all single-bit flips of 12 base requests, every_mac_length all MAC lengths; for unmodified in-window requests every single-bit flip of the reply is given to TSigVerifier; configured_from_files runs unmodified / unsigned / mutated requests against a handler built by SqliteZoneHandler::try_from_config from a zone file, key files and a journal in a scratch directory, half of them after a restart that recovers the zone from the journal (same oracle: policy and keys must survive the configuration path). Non-trivial = distinct case AND (the mutation touches a signed octet, the MAC or a TSIG field, OR the clock is within 1 of a fudge edge, OR the completeness clause incl. the reply-flip sweep ran)",
+        rule: "requests built and TSIG-signed by hickory's client (UPDATE with/without prerequisite; AXFR under Deny/AllowAll/AllowSigned; HMAC-SHA256/384/512; with/without EDNS; key sets: none, one, two, same name/other secret, same name twice, other name/same secret, other algorithm; Time Signed normal, < fudge, around 2^32; fudge 0, 1, 300, 65535) x server clock {t-fudge-1, t-fudge, inside, t, t+fudge, t+fudge+1, far} x mutation {bit flip, byte set, section-count set/shift, TSIG field edit with original or recomputed MAC (key name, algorithm, time, fudge, MAC truncated/extended/flipped, original ID, error, other data, class, TTL), TSIG removed/duplicated/not last, trailing octets, header ID, re-signed by the reference signer}; every_request_bit_flip enumerates all single-bit flips of 12 base requests, every_mac_length all MAC lengths; for unmodified in-window requests every single-bit flip of the reply is given to TSigVerifier; configured_from_files runs unmodified / unsigned / mutated requests against a handler built by SqliteZoneHandler::try_from_config from a zone file, key files and a journal in a scratch directory, half of them after a restart that recovers the zone from the journal (same oracle: policy and keys must survive the configuration path); client_multiplexer_replies: the request leaves through the real DnsMultiplexer::with_signer, the server's reply returns through it unmodified, bit-flipped, byte-set, with the TSIG removed, re-signed with another secret or for another request MAC, or with trailing octets: whatever reaches the caller as Ok must carry the RFC 8945 5.3 response MAC, and the unmodified reply must arrive. Non-trivial = distinct case AND (the mutation touches a signed octet, the MAC or a TSIG field, OR the clock is within 1 of a fudge edge, OR the completeness clause incl. the reply-flip sweep ran)",
         assumptions: vec![
             "octets RFC 8945 leaves outside the MAC (header ID via original-ID substitution, TSIG CLASS and TTL which enter the digest as constants, case of key/algorithm names, octets after the last counted record) may change without the request or reply counting as modified",
             "a key set with the same key name configured twice is outside the completeness clause (recorded)",
             "answers to non-AXFR questions (e.g. an UPDATE whose opcode was flipped to QUERY) are public data, not 'zone data returned'",
             "server clock = interposed CLOCK_REALTIME read by Time::current_time()",
         ],
-        subs: vec![mutations, complete, configured, flips, trunc],
+        subs: vec![mutations, complete, configured, client, flips, trunc],
     })
 }
